@@ -28,6 +28,7 @@ func (e *Engine) objectTypes() []types.Type {
 		{"k8s.io/api/core/v1", "Pod"},
 		{"k8s.io/api/core/v1", "ConfigMap"},
 		{"k8s.io/api/core/v1", "Secret"},
+		{"k8s.io/apimachinery/pkg/apis/meta/v1", "ObjectMeta"},
 	} {
 		if p := e.typesPkgs[c.pkg]; p != nil {
 			if tn, ok := p.Scope().Lookup(c.name).(*types.TypeName); ok {
@@ -85,6 +86,7 @@ func (fr *Frame) objMetaInvoke(st *State, c *ssa.CallCommon, recv Val, args []Va
 		return r.def("om", out), true
 	}
 	v := fr.toTerm(args[0])
+	r.noteAssume("ObjectMeta setters called through an interface: the receiver is a *Job, *JobConfig, *Pod, *ConfigMap, *Secret or *ObjectMeta")
 	for _, T := range r.eng.objectTypes() {
 		obj, idx, _ := types.LookupFieldOrMethod(T, true, nil, field)
 		fv, ok := obj.(*types.Var)
